@@ -19,7 +19,7 @@ Print Assumptions c05_write_test_is_spec.
     before or after that statement.  ([has_non_plain] is an [existsb]: every order is
     covered; the message is non-empty by the hypothesis.) *)
 Theorem c05_writes_to_primary : forall cfg act st ss,
-  s_splitting cfg = true -> has_non_plain ss = true ->
+  s_splitting cfg = true -> override_off st = false -> has_non_plain ss = true ->
   active_role (fst (infer_act cfg act st ss)) = Some Primary.
 Proof. exact infer_writes_primary. Qed.
 Print Assumptions c05_writes_to_primary.
@@ -33,7 +33,7 @@ Print Assumptions c05_client_writes_to_primary.
 
 (** the empty message (no statement) goes to the primary and infer reports an error *)
 Theorem c05_empty_message_primary : forall cfg act st,
-  s_splitting cfg = true -> infer_act cfg act st [] = (set_role st (Some Primary), true).
+  s_splitting cfg = true -> override_off st = false -> infer_act cfg act st [] = (set_role st (Some Primary), true).
 Proof. exact infer_empty. Qed.
 Print Assumptions c05_empty_message_primary.
 
@@ -55,14 +55,14 @@ Print Assumptions c05_no_sharding_key_no_shard_effect.
 (** Plain reads only, no activity pin: Replica, or "any" when primary reads are enabled
     (pool setting or session override). *)
 Theorem c05_reads_not_pinned : forall cfg act st ss,
-  s_splitting cfg = true -> ss <> [] -> is_quiet act -> forallb plain_read ss = true ->
+  s_splitting cfg = true -> override_off st = false -> ss <> [] -> is_quiet act -> forallb plain_read ss = true ->
   active_role (fst (infer_act cfg act st ss)) = (if preads_on cfg st then None else Some Replica).
 Proof. exact infer_reads. Qed.
 Print Assumptions c05_reads_not_pinned.
 
 (** activity-based routing, database Initializing: everything goes to the primary *)
 Theorem c05_activity_pin_primary : forall cfg act st ss,
-  s_splitting cfg = true -> a_init act = true ->
+  s_splitting cfg = true -> override_off st = false -> a_init act = true ->
   active_role (fst (infer_act cfg act st ss)) = Some Primary.
 Proof. exact infer_pinned. Qed.
 Print Assumptions c05_activity_pin_primary.
@@ -73,7 +73,7 @@ Print Assumptions c05_activity_pin_primary.
     every message including the empty one.  What does NOT recompute is listed in the
     Examples [c05_stale_*] below. *)
 Theorem c05_recomputed : forall cfg act st st' ss,
-  s_splitting cfg = true -> o_preads st = o_preads st' ->
+  s_splitting cfg = true -> override_off st = false -> override_off st' = false -> o_preads st = o_preads st' ->
   active_role (fst (infer_act cfg act st ss)) = active_role (fst (infer_act cfg act st' ss)).
 Proof. exact infer_recomputed. Qed.
 Print Assumptions c05_recomputed.
@@ -95,6 +95,15 @@ Theorem c05_explicit_role_sticky : forall cfg st a its,
          (session_trace cfg (exec_role_cmd cfg st (SetServerRole a)) its).
 Proof. exact explicit_role_sticky. Qed.
 Print Assumptions c05_explicit_role_sticky.
+
+(** The step behind it: while the session's parser override is Some(false) (set by SET SERVER ROLE
+    primary|replica|any) NO message changes the router state — accepted or rejected, empty (";",
+    a comment, an empty Parse), read or write, whether or not the pool's plugins make client.rs
+    parse it, with or without read/write splitting. *)
+Theorem c05_explicit_role_survives_any_message : forall cfg st p,
+  override_off st = true -> route_parsed cfg st p = st.
+Proof. exact route_parsed_off. Qed.
+Print Assumptions c05_explicit_role_survives_any_message.
 
 Theorem c05_explicit_role_sticky_end : forall cfg st a its,
   explicit_arg a = true -> forallb not_set_role its = true ->
@@ -185,7 +194,7 @@ Example c05_stale_role_cases :
   (* the parser rejects the SQL (e.g. VACUUM, LOCK TABLE, a DELETE in a CTE): role unchanged *)
   route_parsed (cfg_split false) st_replica PRej = st_replica /\
   (* parser on, splitting off: infer does nothing *)
-  active_role (route_parsed {| s_parser := true; s_splitting := false; s_primary_reads := false; s_default_role := None |}
+  active_role (route_parsed {| s_parser := true; s_splitting := false; s_primary_reads := false; s_default_role := None; s_plugins := false |}
                             st_replica (PAcc quiet [SOther])) = Some Replica /\
   (* a batch without Parse (Bind/Execute of a named statement) carries no SQL *)
   client_route (cfg_split false) st_replica (IBatch [BBind 7; BOther]) = st_replica.
@@ -262,4 +271,20 @@ Example c05_shard_conflict_before_write :
   infer_sh (cfg_split false) quiet true (fun i => nth i [ShSome 1; ShNone; ShSome 1] ShNone) st_replica None
            [SQuery sel; SQuery sel; SQuery sel]
   = ({| active_role := Some Replica; o_parser := None; o_preads := None |}, Some 1, false).
+Proof. vm_compute. repeat split. Qed.
+
+(** A pool with plugins keeps parsing after SET SERVER ROLE; an empty message (";", a comment,
+    an empty Parse) must not flip the session to the primary. *)
+Example c05_empty_message_after_explicit_role :
+  let c := cfg_plug false in
+  let s0 := init_state c in
+  parses_messages c (exec_role_cmd c s0 (SetServerRole RReplica)) = true /\
+  active_role (session c s0 [ICmd (SetServerRole RReplica); ISimple (PAcc quiet [])]) = Some Replica /\
+  active_role (session c s0 [ICmd (SetServerRole RAny); IBatch [BParse 0 (PAcc quiet []); BBind 0];
+                             ISimple (PAcc quiet [SQuery sel])]) = None /\
+  active_role (session c s0 [ICmd (SetServerRole RReplica); ISimple (PAcc quiet []); ISimple (PAcc quiet [SOther]);
+                             ISimple (PAcc quiet [SQuery sel])]) = Some Replica /\
+  (* without an explicit role the empty message goes to the primary, as before *)
+  active_role (session c s0 [ISimple (PAcc quiet [SQuery sel]); ISimple (PAcc quiet [])]) = Some Primary /\
+  active_role (session c s0 [ICmd (SetServerRole RReplica); ICmd (SetServerRole RAuto); ISimple (PAcc quiet [])]) = Some Primary.
 Proof. vm_compute. repeat split. Qed.
